@@ -145,46 +145,236 @@ Proof.
   - intros _ _. apply IH. lia.
 Qed.
 
-(* ------------------------------------------------------------------ guard: Tree::insert *)
-Lemma tree_insert_fuel fuel : forall file, (length file < fuel)%nat -> tree_insert fuel file = Val tt.
+(* ------------------------------------------------------------------ guard: Tree::insert (children.len() - 1, children[index]) *)
+Lemma segments_spelled :
+  seg_corner = bytes_of_string "└─" /\ seg_tee = bytes_of_string "├─" /\
+  seg_blank = bytes_of_string "  " /\ seg_bar = bytes_of_string "│ ".
+Proof. repeat split; reflexivity. Qed.
+
+Lemma set_nth_end {A} (x y : A) l : set_nth (length l) x (l ++ [y]) = l ++ [x].
+Proof. induction l as [|z r IH]; cbn; [reflexivity|]. rewrite IH. reflexivity. Qed.
+
+(** one round of the loop of [Tree::insert] finds or appends exactly the child the recursive code descended into *)
+Lemma insert_round (g : tree -> tree) name cs :
+  match position name cs with
+  | Some i => exists c, nth_error cs (N.to_nat i) = Some c /\
+                        set_nth (N.to_nat i) (g c) cs = insert_spec_children g name cs
+  | None => set_nth (length cs) (g (Node name [])) (cs ++ [Node name []]) = insert_spec_children g name cs
+  end.
 Proof.
-  induction fuel as [|f IH]; intros file H; [lia|].
-  destruct file as [|x r]; [reflexivity|].
-  cbn [tree_insert]. unfold index, slice_from. cbn [N.to_nat nth_error unwrap bind length].
-  replace (1 <=? N.of_nat (S (length r))) with true by lia.
-  cbn [bind]. apply IH. change (skipn (Pos.to_nat 1) (x :: r)) with r. cbn [length] in H. lia.
+  induction cs as [|c r IH]; cbn [position insert_spec_children]; [reflexivity|].
+  destruct (bytes_eqb (t_name c) name).
+  - exists c. split; reflexivity.
+  - destruct (position name r) as [i|]; cbn [option_map].
+    + destruct IH as [c' [Hn Hs]]. exists c'. rewrite N2Nat.inj_succ. cbn [nth_error set_nth].
+      split; [exact Hn|]. rewrite Hs. reflexivity.
+    + cbn [length app set_nth]. rewrite IH. reflexivity.
 Qed.
 
-Lemma tree_insert_guard file : tree_insert (S (length file)) file <> Abort.
-Proof. rewrite tree_insert_fuel; [discriminate|lia]. Qed.
-
-(* ------------------------------------------------------------------ guard: children.len() - 1 inside the loop over children *)
-Lemma lines_children_guard r : forall total, 1 <= total -> lines_children total r <> Abort.
+(** the loop of [Tree::insert] never panics and builds the tree the recursive code built *)
+Theorem tree_insert_spec file : forall t, tree_insert file t = Val (insert_spec file t).
 Proof.
-  induction r as [|r IH]; intros total H; cbn [lines_children]; [discriminate|].
-  apply bind_no_abort.
-  - unfold sub_usize. replace (1 <=? total) with true by lia. discriminate.
-  - intros _ _. apply IH. exact H.
+  induction file as [|name rest IH]; intros t; [reflexivity|].
+  cbn [tree_insert insert_spec].
+  pose proof (insert_round (insert_spec rest) name (t_children t)) as R.
+  destruct (position name (t_children t)) as [i|].
+  - destruct R as [c [Hn Hs]]. cbn [bind fst snd]. unfold index. rewrite Hn. cbn [unwrap bind].
+    rewrite IH. cbn [bind]. rewrite Hs. reflexivity.
+  - unfold sub_usize. rewrite app_length. cbn [length].
+    replace (1 <=? N.of_nat (length (t_children t) + 1)) with true by lia.
+    cbn [bind fst snd]. unfold index.
+    replace (N.to_nat (N.of_nat (length (t_children t) + 1) - 1)) with (length (t_children t)) by lia.
+    rewrite nth_error_app2 by lia. rewrite Nat.sub_diag. cbn [nth_error unwrap bind].
+    rewrite IH. cbn [bind]. rewrite R. reflexivity.
 Qed.
 
-Lemma lines_guard n : lines_node n <> Abort.
+Lemma tree_insert_guard file t : tree_insert file t <> Abort.
+Proof. rewrite tree_insert_spec. discriminate. Qed.
+
+Lemma tree_insert_all_val files : forall t, exists t', tree_insert_all files t = Val t'.
 Proof.
-  unfold lines_node. destruct n as [|n]; [cbn; discriminate|].
-  apply lines_children_guard. lia.
+  induction files as [|f r IH]; intros t; cbn [tree_insert_all]; [eexists; reflexivity|].
+  rewrite tree_insert_spec. cbn [bind]. apply IH.
 Qed.
 
-(* ------------------------------------------------------------------ guard: last[..last.len() - 1], last[last.len() - 1] *)
-Lemma line_prefix_guard last : line_prefix last <> Abort.
+(* ------------------------------------------------------------------ guard: prefix.truncate(indent) in Tree::lines *)
+(** [indent] is a place where the prefix can be cut *)
+Definition boundary (p : bytes) (i : nat) : Prop := (i <= length p)%nat /\ is_char_boundary p i = true.
+
+Lemma truncate_boundary p i : boundary p i -> truncate p i = Val (firstn i p).
 Proof.
-  destruct last as [|b r]; [cbn; discriminate|].
-  unfold line_prefix. set (l := b :: r).
-  assert (Hl : (0 < length l)%nat) by (subst l; cbn; lia).
-  unfold sub_usize. replace (1 <=? N.of_nat (length l)) with true by lia. cbn [bind].
-  unfold slice_to. replace (N.of_nat (length l) - 1 <=? N.of_nat (length l)) with true by lia. cbn [bind].
-  unfold index.
-  destruct (nth_error l (N.to_nat (N.of_nat (length l) - 1))) eqn:E; [cbn; discriminate|].
-  apply nth_error_None in E. lia.
+  intros [Hl Hb]. unfold truncate. replace (Nat.leb i (length p)) with true by (symmetry; apply Nat.leb_le; exact Hl).
+  rewrite Hb. reflexivity.
 Qed.
+
+Lemma boundary_end p : boundary p (length p).
+Proof.
+  split; [lia|]. unfold is_char_boundary. destruct (length p) eqn:E; [reflexivity|].
+  rewrite <- E. replace (nth_error p (length p)) with (@None N) by (symmetry; apply nth_error_None; lia).
+  apply Nat.eqb_refl.
+Qed.
+
+(** cutting at [i] and pushing a text that starts a character keeps every earlier cutting place *)
+Lemma boundary_keep p i j b seg :
+  boundary p j -> (j <= i)%nat -> (i <= length p)%nat -> cont b = false ->
+  boundary (firstn i p ++ b :: seg) j.
+Proof.
+  intros [Hjl Hjb] Hji Hil Hb.
+  assert (Hfl : length (firstn i p) = i) by (rewrite firstn_length; lia).
+  split; [rewrite app_length, Hfl; cbn [length]; lia|].
+  unfold is_char_boundary in *. destruct j as [|j']; [reflexivity|].
+  destruct (Nat.eq_dec (S j') i) as [E|NE].
+  - rewrite nth_error_app2 by lia. rewrite Hfl, E, Nat.sub_diag. cbn [nth_error]. rewrite Hb. reflexivity.
+  - rewrite nth_error_app1 by lia.
+    assert (Hn : nth_error (firstn i p) (S j') = nth_error p (S j')).
+    { rewrite <- (firstn_skipn i p) at 2. rewrite nth_error_app1 by lia. reflexivity. }
+    rewrite Hn.
+    destruct (nth_error p (S j')) as [x|] eqn:Ex; [exact Hjb|].
+    apply nth_error_None in Ex. lia.
+Qed.
+
+Lemma firstn_keep (p : bytes) i j seg : (j <= i)%nat -> (i <= length p)%nat -> firstn j (firstn i p ++ seg) = firstn j p.
+Proof.
+  intros Hji Hil. rewrite firstn_app. rewrite firstn_length.
+  replace (j - Nat.min i (length p))%nat with O by lia. cbn [firstn]. rewrite app_nil_r.
+  rewrite firstn_firstn. replace (Nat.min j i) with j by lia. reflexivity.
+Qed.
+
+(** the stack of [Tree::lines]: every indent is a cutting place of the prefix, and no frame
+    has a larger indent than the frame above it *)
+Fixpoint stack_ok (p : bytes) (top : nat) (stack : list frame) : Prop :=
+  match stack with
+  | [] => True
+  | (_, i) :: below => boundary p i /\ (i <= top)%nat /\ stack_ok p i below
+  end.
+
+Lemma stack_ok_keep p i b seg : (i <= length p)%nat -> cont b = false ->
+  forall stack top, (top <= i)%nat -> stack_ok p top stack -> stack_ok (firstn i p ++ b :: seg) top stack.
+Proof.
+  intros Hil Hb. induction stack as [|[cs j] below IH]; intros top Ht H; [exact I|].
+  cbn [stack_ok] in *. destruct H as [Hbj [Hjt Hbelow]].
+  split; [apply boundary_keep; [exact Hbj|lia|exact Hil|exact Hb]|].
+  split; [exact Hjt|]. apply IH; [lia|exact Hbelow].
+Qed.
+
+Lemma stack_ok_weaken p stack : forall top top', (top <= top')%nat -> stack_ok p top stack -> stack_ok p top' stack.
+Proof. destruct stack as [|[cs j] below]; intros top top' Ht H; [exact I|]. cbn [stack_ok] in *. destruct H as [H1 [H2 H3]]. split; [exact H1|split; [lia|exact H3]]. Qed.
+
+(* ------------------------------------------------------------------ Tree::lines: the fuel suffices, the lines are those of the recursive code *)
+Fixpoint forest_size (cs : list tree) : nat :=
+  match cs with [] => O | c :: r => (tree_size c + forest_size r)%nat end.
+
+Lemma tree_size_children t : tree_size t = S (forest_size (t_children t)).
+Proof.
+  destruct t as [n cs]. reflexivity.
+Qed.
+
+Lemma forest_size_app a b : forest_size (a ++ b) = (forest_size a + forest_size b)%nat.
+Proof. induction a as [|c r IH]; cbn [app forest_size]; [reflexivity|]. rewrite IH. lia. Qed.
+
+(** rounds the loop still needs *)
+Fixpoint rounds (stack : list frame) : nat :=
+  match stack with
+  | [] => O
+  | (cs, _) :: below => (S (2 * forest_size cs) + rounds below)%nat
+  end.
+
+(** the lines the recursive code drew for what is still on the stack *)
+Fixpoint pending (p : bytes) (stack : list frame) : list bytes :=
+  match stack with
+  | [] => []
+  | (cs, i) :: below => spec_children (fun l c => lines_spec_node (firstn i p) l c) cs ++ pending p below
+  end.
+
+Lemma pending_keep p i seg : (i <= length p)%nat ->
+  forall stack top, (top <= i)%nat -> stack_ok p top stack -> pending (firstn i p ++ seg) stack = pending p stack.
+Proof.
+  intros Hil. induction stack as [|[cs j] below IH]; intros top Ht H; [reflexivity|].
+  cbn [stack_ok pending] in *. destruct H as [_ [Hjt Hbelow]].
+  rewrite firstn_keep by lia. f_equal. apply (IH j); [lia|exact Hbelow].
+Qed.
+
+Lemma seg_starts (last : bool) :
+  (exists b s, (if last then seg_corner else seg_tee) = b :: s /\ cont b = false) /\
+  (exists b s, (if last then seg_blank else seg_bar) = b :: s /\ cont b = false).
+Proof. destruct last; split; eexists; eexists; split; reflexivity. Qed.
+
+Lemma lines_loop_spec fuel : forall p stack out,
+  stack_ok p (length p) stack -> (rounds stack < fuel)%nat ->
+  lines_loop fuel p stack out = Val (rev out ++ pending p stack).
+Proof.
+  induction fuel as [|f IH]; intros p stack out Hok Hfuel; [lia|].
+  destruct stack as [|[children i] below]; cbn [lines_loop].
+  - cbn [pending]. rewrite app_nil_r. reflexivity.
+  - cbn [stack_ok] in Hok. destruct Hok as [Hb [Hil Hbelow]].
+    destruct children as [|child more].
+    + cbn [pending spec_children app]. apply IH.
+      * eapply stack_ok_weaken; [|exact Hbelow]. exact Hil.
+      * cbn [rounds forest_size] in Hfuel. lia.
+    + rewrite (truncate_boundary _ _ Hb). cbn [bind].
+      destruct (seg_starts (is_nil more)) as [[b1 [s1 [E1 C1]]] [b2 [s2 [E2 C2]]]].
+      set (a := firstn i p) in *.
+      assert (Hal : length a = i) by (subst a; rewrite firstn_length; lia).
+      assert (Hb2 : boundary (a ++ (if is_nil more then seg_corner else seg_tee)) i).
+      { rewrite E1. subst a. apply boundary_keep; [exact Hb|lia|lia|exact C1]. }
+      rewrite (truncate_boundary _ _ Hb2). cbn [bind].
+      assert (Ha2 : firstn i (a ++ (if is_nil more then seg_corner else seg_tee)) = a).
+      { subst a. rewrite firstn_keep by lia. reflexivity. }
+      rewrite Ha2.
+      rewrite IH.
+      * cbn [rev pending spec_children]. rewrite firstn_all.
+        assert (Hk : firstn i (a ++ (if is_nil more then seg_blank else seg_bar)) = a).
+        { subst a. rewrite firstn_keep by lia. reflexivity. }
+        rewrite Hk.
+        assert (Hp : pending (a ++ (if is_nil more then seg_blank else seg_bar)) below = pending p below).
+        { subst a. apply (pending_keep p i _ Hil below i); [lia|exact Hbelow]. }
+        rewrite Hp.
+        destruct child as [name cs]. cbn [lines_spec_node t_name t_children].
+        rewrite <- ?app_assoc. cbn [app]. rewrite <- ?app_assoc. reflexivity.
+      * cbn [stack_ok]. split; [apply boundary_end|]. split; [lia|].
+        rewrite E2. subst a.
+        split; [apply boundary_keep; [exact Hb|lia|lia|exact C2]|].
+        split; [rewrite app_length, firstn_length; lia|].
+        apply stack_ok_keep; [lia|exact C2|lia|exact Hbelow].
+      * cbn [rounds forest_size] in *. rewrite (tree_size_children child) in Hfuel. lia.
+Qed.
+
+(** [Tree::lines] never panics, its fuel suffices, and it hands the writer the lines of the recursive code *)
+Theorem tree_lines_spec t : tree_lines t = Val (lines_spec t).
+Proof.
+  unfold tree_lines, lines_spec. rewrite lines_loop_spec.
+  - cbn [rev app pending firstn]. rewrite app_nil_r. reflexivity.
+  - cbn [stack_ok length]. split; [split; [lia|reflexivity]|]. split; [lia|exact I].
+  - cbn [rounds]. rewrite (tree_size_children t). lia.
+Qed.
+
+Lemma tree_lines_guard t : tree_lines t <> Abort.
+Proof. rewrite tree_lines_spec. discriminate. Qed.
+
+(* ------------------------------------------------------------------ Drop for Tree: the fuel suffices *)
+Lemma drop_loop_spec fuel : forall stack, (forest_size stack <= fuel)%nat -> drop_loop (S fuel) stack = Val tt.
+Proof.
+  induction fuel as [|f IH]; intros stack H.
+  - destruct stack as [|t r]; [reflexivity|]. cbn [forest_size] in H. rewrite tree_size_children in H. lia.
+  - destruct stack as [|t r]; [reflexivity|].
+    change (drop_loop (S (S f)) (t :: r)) with (drop_loop (S f) (t_children t ++ r)).
+    apply IH. rewrite forest_size_app. cbn [forest_size] in H. rewrite tree_size_children in H. lia.
+Qed.
+
+Theorem tree_drop_spec t : tree_drop t = Val tt.
+Proof. unfold tree_drop. rewrite tree_size_children. apply drop_loop_spec. lia. Qed.
+
+(* ------------------------------------------------------------------ the Directory arm *)
+Theorem directory_rows_no_abort root files : directory_rows root files <> Abort.
+Proof.
+  unfold directory_rows.
+  destruct (tree_insert_all_val (sort_paths files) (Node root [])) as [t Ht]. rewrite Ht. cbn [bind].
+  rewrite tree_lines_spec. cbn [bind]. rewrite tree_drop_spec. cbn [bind]. discriminate.
+Qed.
+
+(** the guards are load-bearing: an indent inside a character makes [truncate] panic *)
+Lemma truncate_unguarded_panics : truncate seg_bar 1 = Abort.
+Proof. vm_compute. reflexivity. Qed.
 
 (* ------------------------------------------------------------------ guard: name_width - width(name) *)
 Lemma name_width_ge ws w : In w ws -> w <= name_width ws.
@@ -230,7 +420,6 @@ Variable node_ok : bytes -> bool.
 Variable stack_budget : N.
 Variable verdict : metainfo -> bool.
 Variable in_chrono_range : N -> bool.
-Variable tree_budget : N.
 
 Lemma de_info_no_abort v : de_info url_ok v <> Abort.
 Proof using.
@@ -277,7 +466,7 @@ Hypothesis stack_holds_max_depth : max_depth <= stack_budget.
 Hypothesis magnet_scheme_is_a_url : url_ok k_magnet = true.
 
 (* keep section variables that a proof does not mention out of the reach of lia *)
-Ltac tidy := try clear magnet_scheme_is_a_url; try clear in_chrono_range; try clear tree_budget; try clear verdict; try clear node_ok; try clear url_ok.
+Ltac tidy := try clear magnet_scheme_is_a_url; try clear in_chrono_range; try clear verdict; try clear node_ok; try clear url_ok.
 Ltac tidy_all := tidy; try clear stack_holds_max_depth; try clear stack_budget.
 
 Lemma decode_value_no_abort v : decode_value stack_budget v <> Abort.
@@ -311,27 +500,20 @@ Qed.
 Definition vec_ok (m : metainfo) : Prop :=
   match m_announce_list m with Some t => N.of_nat (length t) < 2 ^ 64 | None => True end.
 
-Lemma summary_no_abort term m ws cs ps :
+Lemma summary_no_abort term m ws :
   content_size_fits (i_mode (m_info m)) = true -> vec_ok m ->
-  (term = true -> shallow_tree tree_budget m = true) ->
-  summary in_chrono_range tree_budget term m ws cs ps <> Abort.
+  summary in_chrono_range term m ws <> Abort.
 Proof using. tidy_all.
-  intros Hfits Hvec Hshallow. unfold summary.
+  intros Hfits Hvec. unfold summary.
   step; [destruct (m_creation_date m); [apply date_guard|discriminate]|].
   step; [apply content_size_guard; exact Hfits|].
   step; [unfold vec_ok in Hvec; destruct (m_announce_list m); [apply tiers_guard; lia|discriminate]|].
   destruct term; [|discriminate].
-  specialize (Hshallow eq_refl). unfold shallow_tree in Hshallow.
   step; [apply pad_rows_guard|].
   step; [apply display_guard, as_u64_lt|].
   step; [apply display_guard, as_u64_lt|].
   destruct (i_mode (m_info m)) as [n md|fs]; [discriminate|].
-  step.
-  { apply for_each_no_abort, Forall_forall. intros f Hf.
-    rewrite forallb_forall in Hshallow. specialize (Hshallow f Hf).
-    unfold stack_guard. rewrite Hshallow. cbn [bind]. apply tree_insert_guard. }
-  step; [apply for_each_no_abort, Forall_forall; intros n _; apply lines_guard|].
-  apply for_each_no_abort, Forall_forall; intros p _; apply line_prefix_guard.
+  step; [apply directory_rows_no_abort|discriminate].
 Qed.
 
 (* ------------------------------------------------------------------ commands *)
@@ -339,26 +521,17 @@ Qed.
 Definition alloc_ok (data : bytes) : Prop :=
   forall v m, load url_ok node_ok data = Val (v, m) -> vec_ok m.
 
-(** the known finding (open): in terminal layout the file tree is built, walked and dropped
-    by recursion over the path components, and a path with more components than the stack
-    holds frames overflows it *)
-Definition deep_path_on_terminal (term : bool) (data : bytes) : Prop :=
-  term = true /\ exists v m, load url_ok node_ok data = Val (v, m) /\ shallow_tree tree_budget m = false.
-
-Theorem show_no_panic term ws cs ps data :
-  ~ deep_path_on_terminal term data ->
+Theorem show_no_panic term ws data :
   alloc_ok data ->
-  finish (show_model url_ok node_ok stack_budget in_chrono_range tree_budget term ws cs ps data) <> Panic101.
+  finish (show_model url_ok node_ok stack_budget in_chrono_range term ws data) <> Panic101.
 Proof using stack_holds_max_depth.
-  intros Hk Ha.
-  assert (H : show_model url_ok node_ok stack_budget in_chrono_range tree_budget term ws cs ps data <> Abort).
+  intros Ha.
+  assert (H : show_model url_ok node_ok stack_budget in_chrono_range term ws data <> Abort).
   { unfold show_model. step; [apply load_no_abort|].
     step; [apply infohash_no_abort|].
     destruct a as [v m]. cbn [fst snd].
-    apply summary_no_abort; [eapply load_fits; eassumption|eapply Ha; eassumption|].
-    intros Ht. destruct (shallow_tree tree_budget m) eqn:Es; [reflexivity|].
-    exfalso. apply Hk. split; [exact Ht|]. exists v, m. split; [assumption|exact Es]. }
-  destruct (show_model _ _ _ _ _ _ _ _ _ _); cbn; congruence.
+    apply summary_no_abort; [eapply load_fits; eassumption|eapply Ha; eassumption]. }
+  destruct (show_model _ _ _ _ _ _ _); cbn; congruence.
 Qed.
 
 Theorem link_no_panic data : finish (link_model url_ok node_ok stack_budget data) <> Panic101.
@@ -446,30 +619,20 @@ Proof.
 Qed.
 
 Lemma witness_shows :
-  finish (show_model (fun _ => true) (fun _ => true) max_depth (fun _ => true) 20000 true [4; 7] [2%nat] [[true]; []] witness) = Ok0.
+  finish (show_model (fun _ => true) (fun _ => true) max_depth (fun _ => true) true [4; 7] witness) = Ok0.
 Proof. vm_compute. reflexivity. Qed.
 
-Lemma witness_not_deep : ~ deep_path_on_terminal (fun _ => true) (fun _ => true) 20000 true witness.
-Proof.
-  intros [_ [v [m [H Hs]]]]. destruct witness_loads as [v' [m' [H' _]]].
-  assert (E : shallow_tree 20000 m' = true).
-  { revert H'. vm_compute. intros H'. injection H' as _ <-. reflexivity. }
-  rewrite H' in H. injection H as _ <-. congruence.
-Qed.
+(** a multi-file torrent (the layout of table::tests::directory plus a repeated path and a file that is
+    also a directory) is shown normally, and the model draws the tree the terminal layout prints *)
+Definition tree_witness : bytes :=
+  bytes_of_string "d4:infod5:filesld6:lengthi1e4:pathl1:deed6:lengthi1e4:pathl1:a1:ceed6:lengthi1e4:pathl1:a1:beed6:lengthi1e4:pathl1:aeed6:lengthi1e4:pathl1:a1:beee4:name3:Foo12:piece lengthi1e6:pieces0:ee".
 
-(** witness of the known finding: three path components on a stack that holds two tree frames *)
-Definition deep_witness : bytes :=
-  bytes_of_string "d4:infod5:filesld6:lengthi1e4:pathl1:x1:x1:xeee4:name1:n12:piece lengthi1e6:pieces0:ee".
+(** "Foo", then a with b and c under it, then d, with the connectors of table::tests::directory *)
+Definition tree_witness_rows : list bytes :=
+  map bytes_of_string ["Foo"; "├─a"; "│ ├─b"; "│ └─c"; "└─d"]%string.
 
-Lemma deep_path_refuted :
-  exists (budget : N) (data : bytes),
-    deep_path_on_terminal (fun _ => true) (fun _ => true) budget true data /\
-    finish (show_model (fun _ => true) (fun _ => true) max_depth (fun _ => true) budget true [] [] [] data) = Panic101 /\
-    finish (show_model (fun _ => true) (fun _ => true) max_depth (fun _ => true) budget false [] [] [] data) = Ok0.
-Proof.
-  exists 2, deep_witness. split; [|split; vm_compute; reflexivity].
-  split; [reflexivity|].
-  assert (L : exists v m, load (fun _ => true) (fun _ => true) deep_witness = Val (v, m)) by (vm_compute; eexists; eexists; reflexivity).
-  destruct L as [v [m L]]. exists v, m. split; [exact L|].
-  revert L. vm_compute. intros L. injection L as _ <-. reflexivity.
-Qed.
+Lemma tree_witness_shows :
+  finish (show_model (fun _ => true) (fun _ => true) max_depth (fun _ => true) true [4; 7] tree_witness) = Ok0 /\
+  tree_rows (fun _ => true) (fun _ => true) tree_witness =
+    Some tree_witness_rows.
+Proof. split; vm_compute; reflexivity. Qed.
